@@ -142,3 +142,11 @@ impl<PT, K: IndexKey, P: Debug, I> ManyMatcher<PT, K, P, I> {
         self.automaton.dot_string()
     }
 }
+
+#[cfg(feature = "verif")]
+impl<PT, K: IndexKey, P, I> ManyMatcher<PT, K, P, I> {
+    /// Verification hook: read-only access to the compiled automaton.
+    pub fn verif_automaton(&self) -> &ConstraintAutomaton<K, P, I> {
+        &self.automaton
+    }
+}
